@@ -3,6 +3,7 @@ From Xdis Require Import Base.Prelude Base.OpTable Gen.Opcodes Gen.RefOpcodes Pr
 
 Lemma coherence_ok : flat_map table_failures all_tables = [].  Proof. vm_compute. reflexivity. Qed.
 Lemma oracle_ok : flat_map oracle_failures_t all_tables = [].  Proof. vm_compute. reflexivity. Qed.
+Lemma jump_names_ok : flat_map chk_jump_names all_tables = [].  Proof. vm_compute. reflexivity. Qed.
 Lemma keymap_ok : keymap_failures = [].        Proof. vm_compute. reflexivity. Qed.
 
 Lemma flat_map_nil {A B} (f : A -> list B) l : flat_map f l = [] -> forall x, In x l -> f x = [].
@@ -13,6 +14,9 @@ Qed.
 
 Lemma table_ok : forall t, In t all_tables -> table_failures t = [].
 Proof. exact (flat_map_nil table_failures all_tables coherence_ok). Qed.
+
+Lemma table_jump_names_ok : forall t, In t all_tables -> chk_jump_names t = [].
+Proof. exact (flat_map_nil chk_jump_names all_tables jump_names_ok). Qed.
 
 Lemma table_oracle_ok : forall t, In t all_tables -> oracle_failures_t t = [].
 Proof. exact (flat_map_nil oracle_failures_t all_tables oracle_ok). Qed.
